@@ -310,9 +310,205 @@ theorem runAll_ok (cfg : Cfg) (hwf : WF cfg) (w : Wiring) (lifes : List (List SR
     obtain ⟨hi', h3⟩ := ih hi2 _ hpre2
     exact ⟨hi', by simp [runAll, chkAll, hs1, h2, h3]⟩
 
+/-! #### soundness of the checker w.r.t. the declarative statement -/
+
+theorem Handled_mono_left (cfg : Cfg) (xs ys : List (Round × Obs)) (b : Int) (h : Handled cfg xs b) :
+    Handled cfg (xs ++ ys) b := by
+  obtain ⟨p, hp, hh⟩ := h; exact ⟨p, List.mem_append_left _ hp, hh⟩
+
+theorem Handled_mono_right (cfg : Cfg) (xs ys : List (Round × Obs)) (b : Int) (h : Handled cfg ys b) :
+    Handled cfg (xs ++ ys) b := by
+  obtain ⟨p, hp, hh⟩ := h; exact ⟨p, List.mem_append_right _ hp, hh⟩
+
+/-- one accepted round: the frontier only grows, every block it grows over was handled by all handlers in this very
+    round, and a store attempt is never beyond the new frontier -/
+theorem chkRound_sound (cfg : Cfg) (H : Int) (r : Round) (o : Obs) (hi' : Option Int)
+    (h : chkRound cfg (some H) r o = some hi') :
+    ∃ H', hi' = some H' ∧ H ≤ H' ∧ (∀ b, H ≤ b → b < H' → HandledIn cfg (r, o) b) ∧
+      (∀ v w, o.store = some (v, w) → v ≤ H') := by
+  unfold chkRound at h
+  cases hh : o.calls.head? with
+  | none =>
+    simp only [hh] at h
+    split at h
+    · cases h
+    · next hs =>
+      simp only [Option.some.injEq] at h; subst h
+      refine ⟨H, rfl, by omega, fun b h1 h2 => by omega, ?_⟩
+      intro v w hv; simp [hv] at hs
+  | some c =>
+    simp only [hh] at h
+    rw [show anchor (some H) c.s = H from rfl] at h
+    split at h
+    · cases h
+    · next hshape =>
+      have hshape : o.calls = callsUpTo cfg c.s o.calls.length := by simpa using hshape
+      by_cases hlt : H < c.s
+      · rw [if_pos hlt] at h; cases h
+      · rw [if_neg hlt] at h
+        have hle : ¬ H < c.s := hlt
+        have hpos : 0 < o.calls.length := by
+          cases hc : o.calls with
+          | nil => simp [hc] at hh
+          | cons _ _ => simp
+        have hce : c.e = cfg.last c.s := by
+          have h1 := callsUpTo_head cfg c.s o.calls.length hpos
+          rw [← hshape, hh] at h1
+          simp only [Option.some.injEq] at h1
+          rw [h1]
+        -- what the new frontier covers
+        have key : ∀ (H' : Int), H' = (if fully cfg r o = true then imax H (c.e + 1) else H) →
+            H ≤ H' ∧ ∀ b, H ≤ b → b < H' → HandledIn cfg (r, o) b := by
+          intro H' hH'
+          by_cases hf : fully cfg r o = true
+          · rw [if_pos hf] at hH'
+            have hge := imax_ge_left H (c.e + 1)
+            refine ⟨by omega, ?_⟩
+            intro b hb1 hb2
+            have hf' := hf
+            simp only [fully, Bool.and_eq_true, beq_iff_eq] at hf'
+            refine ⟨hf'.1, c.s, by rw [← hf'.2]; exact hshape, by omega, ?_⟩
+            have : b < c.e + 1 := by
+              unfold imax at hH'; split at hH' <;> omega
+            omega
+          · rw [if_neg hf] at hH'
+            exact ⟨by omega, fun b h1 h2 => by omega⟩
+        cases hst : o.store with
+        | none =>
+          simp only [hst, Option.some.injEq] at h
+          obtain ⟨k1, k2⟩ := key _ rfl
+          exact ⟨_, h.symm, k1, k2, by intro v w hv; cases hv⟩
+        | some vw =>
+          obtain ⟨v, w⟩ := vw
+          simp only [hst] at h
+          by_cases hok : fully cfg r o = true ∧ v ≤ (if fully cfg r o = true then imax H (c.e + 1) else H)
+          · rw [if_pos hok] at h
+            simp only [Option.some.injEq] at h
+            obtain ⟨k1, k2⟩ := key _ rfl
+            refine ⟨_, h.symm, k1, k2, ?_⟩
+            intro v' w' hv
+            simp only [Option.some.injEq, Prod.mk.injEq] at hv
+            rw [← hv.1]; exact hok.2
+          · rw [if_neg hok] at h; cases h
+
+theorem chkLife_sound (cfg : Cfg) : ∀ (l : List SRound) (os : List Obs) (H : Int) (hi' : Option Int),
+    chkLife cfg (some H) l os = some hi' →
+    ∃ H', hi' = some H' ∧ H ≤ H' ∧ (∀ b, H ≤ b → b < H' → Handled cfg ((l.map (·.1)).zip os) b) ∧
+      (∀ v, StoredIn ((l.map (·.1)).zip os) v → v ≤ H') := by
+  intro l
+  induction l with
+  | nil =>
+    intro os H hi' h
+    cases os with
+    | nil =>
+      simp only [chkLife, Option.some.injEq] at h
+      exact ⟨H, h.symm, by omega, fun b h1 h2 => by omega, by intro v ⟨p, hp, _⟩; simp at hp⟩
+    | cons o os => simp [chkLife] at h
+  | cons x rs ih =>
+    intro os H hi' h
+    obtain ⟨r, cr⟩ := x
+    cases os with
+    | nil =>
+      simp only [chkLife, Option.some.injEq] at h
+      exact ⟨H, h.symm, by omega, fun b h1 h2 => by omega, by intro v ⟨p, hp, _⟩; simp at hp⟩
+    | cons o os =>
+      simp only [chkLife] at h
+      cases hr : chkRound cfg (some H) r o with
+      | none => simp [hr] at h
+      | some hi1 =>
+        simp only [hr] at h
+        obtain ⟨H1, rfl, hle1, hcov1, hst1⟩ := chkRound_sound cfg H r o hi1 hr
+        obtain ⟨H2, rfl, hle2, hcov2, hst2⟩ := ih os H1 hi' h
+        refine ⟨H2, rfl, by omega, ?_, ?_⟩
+        · intro b hb1 hb2
+          simp only [List.map_cons, List.zip_cons_cons]
+          by_cases hb : b < H1
+          · exact ⟨(r, o), by simp, hcov1 b hb1 hb⟩
+          · obtain ⟨p, hp, hh⟩ := hcov2 b (by omega) hb2
+            exact ⟨p, List.mem_cons_of_mem _ hp, hh⟩
+        · intro v ⟨p, hp, w, hw⟩
+          simp only [List.map_cons, List.zip_cons_cons, List.mem_cons] at hp
+          rcases hp with rfl | hp
+          · have := hst1 v w hw; omega
+          · exact hst2 v ⟨p, hp, w, hw⟩
+
+theorem chkAll_sound (cfg : Cfg) (w : Wiring) (hl : w.latest = false) :
+    ∀ (lifes : List (List SRound)) (hist : List (Option Int × List Obs)) (H : Int) (hi' : Option Int),
+    chkAll cfg w (some H) lifes hist = some hi' →
+    ∃ H', hi' = some H' ∧ H ≤ H' ∧ (∀ b, H ≤ b → b < H' → Handled cfg (pairsOf lifes hist) b) ∧
+      (∀ v, StoredIn (pairsOf lifes hist) v → v ≤ H') := by
+  intro lifes
+  induction lifes with
+  | nil =>
+    intro hist H hi' h
+    cases hist with
+    | nil =>
+      simp only [chkAll, Option.some.injEq] at h
+      exact ⟨H, h.symm, by omega, fun b h1 h2 => by omega, by intro v ⟨p, hp, _⟩; simp [pairsOf] at hp⟩
+    | cons x xs => simp [chkAll] at h
+  | cons l ls ih =>
+    intro hist H hi' h
+    cases hist with
+    | nil => simp [chkAll] at h
+    | cons x rest =>
+      obtain ⟨s, os⟩ := x
+      simp only [chkAll] at h
+      -- the start check keeps the frontier
+      have hstart : ∀ hi1, chkStart w (some H) s = some hi1 → hi1 = some H := by
+        intro hi1 hs
+        unfold chkStart at hs
+        simp only [hl] at hs
+        cases s with
+        | none => simp at hs
+        | some s0 =>
+          simp only [Bool.false_eq_true, if_false] at hs
+          split at hs
+          · simp at hs; exact hs.symm
+          · cases hs
+      cases hs : chkStart w (some H) s with
+      | none => simp [hs] at h
+      | some hi1 =>
+        simp only [hs] at h
+        have := hstart hi1 hs; subst this
+        cases hlf : chkLife cfg (some H) l os with
+        | none => simp [hlf] at h
+        | some hi2 =>
+          simp only [hlf] at h
+          obtain ⟨H1, rfl, hle1, hcov1, hst1⟩ := chkLife_sound cfg l os H hi2 hlf
+          obtain ⟨H2, rfl, hle2, hcov2, hst2⟩ := ih rest H1 hi' h
+          refine ⟨H2, rfl, by omega, ?_, ?_⟩
+          · intro b hb1 hb2
+            simp only [pairsOf]
+            by_cases hb : b < H1
+            · exact Handled_mono_left cfg _ _ b (hcov1 b hb1 hb)
+            · exact Handled_mono_right cfg _ _ b (hcov2 b (by omega) hb2)
+          · intro v ⟨p, hp, w', hw⟩
+            simp only [pairsOf, List.mem_append] at hp
+            rcases hp with hp | hp
+            · have := hst1 v ⟨p, hp, w', hw⟩; omega
+            · exact hst2 v ⟨p, hp, w', hw⟩
+
 end Helpers
 
 section Property
+
+/-- **The checker is sound for the declarative statement of C05.** For ANY history (of the model or of the real
+    code) that `P05` accepts, without the `latest` flag: every block from the relayer's starting point `gsb`
+    (stored / configured start) up to — not including — ANY value ever handed to `StoreBlock` was, in some round of
+    the history, handed to every handler on one range containing it, with none of the handlers failing. So the
+    persisted cursor never runs ahead of blocks that were not fully handled, across all faults and restarts. -/
+theorem P05_sound (cfg : Cfg) (w : Wiring) (stored0 : Option Int) (lifes : List (List SRound))
+    (hist : List (Option Int × List Obs)) (hl : w.latest = false)
+    (hok : P05 cfg w stored0 lifes hist = true) :
+    ∀ v, StoredIn (pairsOf lifes hist) v → ∀ b, gsb w stored0 ≤ b → b < v → Handled cfg (pairsOf lifes hist) b := by
+  unfold P05 at hok
+  simp only [hl, Bool.false_eq_true, if_false] at hok
+  cases hc : chkAll cfg w (some (gsb w stored0)) lifes hist with
+  | none => simp [hc] at hok
+  | some hi' =>
+    obtain ⟨H', _, _, hcov, hst⟩ := chkAll_sound cfg w hl lifes hist _ hi' hc
+    intro v hv b hb1 hb2
+    exact hcov b hb1 (by have := hst v hv; omega)
 
 /-- **C05.** Every history the model can produce — any configuration with interval ≥ 1 and ≥ 1 handler, any start
     wiring, any initial store content, any number of lifetimes with arbitrary heads, RPC / handler / store
@@ -324,6 +520,14 @@ theorem runAll_P05 (cfg : Cfg) (hwf : WF cfg) (w : Wiring) (stored0 : Option Int
     simp [hl] at hH; subst hH
     exact post_le cfg hwf _)
   simp [P05, h]
+
+/-- … hence for the model: every history it can produce has the declarative property -/
+theorem runAll_declarative (cfg : Cfg) (hwf : WF cfg) (w : Wiring) (stored0 : Option Int) (lifes : List (List SRound))
+    (hl : w.latest = false) :
+    ∀ v, StoredIn (pairsOf lifes (runAll cfg w stored0 lifes)) v → ∀ b, gsb w stored0 ≤ b → b < v →
+      Handled cfg (pairsOf lifes (runAll cfg w stored0 lifes)) b :=
+  P05_sound cfg w stored0 lifes _ hl (runAll_P05 cfg hwf w stored0 lifes)
+
 
 /-- before the first process death a lifetime is a run of the scan loop of C04 -/
 theorem runLife_alive (cfg : Cfg) (l : List SRound) :
